@@ -67,6 +67,10 @@ pub enum XSpec {
 pub struct Case {
     pub knots: KnotSpec,
     pub xs: Vec<XSpec>,
+    /// an evaluation point that is a zero is given the opposite sign of zero (-0.0 for a knot at
+    /// +0.0): the same point as a number
+    #[serde(default)]
+    pub flip_zero: bool,
 }
 
 pub struct C14;
@@ -130,7 +134,7 @@ pub fn resolve_x(t: &[f64], xs: &XSpec) -> f64 {
 }
 
 fn case_strategy() -> impl Strategy<Value = Case> {
-    (prop_oneof![40 => knot_spec_scaled(), 1 => knot_spec_long()], proptest::collection::vec(x_spec(), 1..6)).prop_map(|(knots, xs)| Case { knots, xs })
+    (prop_oneof![40 => knot_spec_scaled(), 1 => knot_spec_long()], proptest::collection::vec(x_spec(), 1..6), any::<bool>()).prop_map(|(knots, xs, flip_zero)| Case { knots, xs, flip_zero })
 }
 
 /// maximum size of the m-th derivative of p on a span of width h (sum of absolute terms)
@@ -160,6 +164,9 @@ impl Property for C14 {
         let last = t[t.len() - 1];
         for xs in &c.xs {
             let x = resolve_x(&t, xs);
+            let x = if c.flip_zero && x == 0.0 { -x } else { x };
+            v.label_if(c.flip_zero && x == 0.0, "x:zero-of-the-other-sign");
+            v.label_if(c.flip_zero && x == 0.0 && x == last, "x:zero-of-the-other-sign:right-end");
             let at_right_end = x == last;
             let on_interior_knot = t[k..n].contains(&x);
             v.label_if(at_right_end, "x:right-end");
@@ -230,7 +237,7 @@ impl Property for C14 {
         }
         // the vectorised entry points of the spline object (what Python's bspldnev / bsplmatrix
         // call) must return, point for point, what the scalar functions return
-        let pts: Vec<f64> = c.xs.iter().map(|xs| resolve_x(&t, xs)).filter(|x| span_of(&t, *x).is_some()).collect();
+        let pts: Vec<f64> = c.xs.iter().map(|xs| resolve_x(&t, xs)).map(|x| if c.flip_zero && x == 0.0 { -x } else { x }).filter(|x| span_of(&t, *x).is_some()).collect();
         if !pts.is_empty() {
             let (left_n, right_n) = (pts.len() % (k + 1), (pts.len() + n) % (k + 1));
             let r = catch(|| {
@@ -274,7 +281,7 @@ impl Property for C14 {
     }
 
     fn rule(&self) -> String {
-        "random (order k in 1..6, knot sequence with k-fold end knots and 0-8 interior knots on a quarter grid with multiplicity <= max(1, k-1) and spans 0.25..4, 2.5% of the sequences are long (58-90 interior knots, 64-190 knots in all); the whole sequence scaled by 2^-70..-30 or 2^20..40 in 40% of draws (domains of 1e-18 and of 1e9 such as POSIX timestamps), 1-5 evaluation points drawn exactly on knots, at both end points, at span midpoints, at the doubles adjacent to knots, and uniformly); for every point ALL basis indices i and ALL derivative orders m = 0..k+1 are evaluated. Oracle: Cox-de Boor carried out on polynomial coefficient vectors per knot span (right limit; left limit at the right end point): equality within 1e-10 x the polynomial's size on the span, non-negativity, exact zero outside [t_i, t_(i+k)], sum_i B_i = 1, sum_i B_i^(m) = 0, exact zero for m >= k; the vectorised entry points PPSpline::bspldnev and ::bsplmatrix (all i, m; end-row orders varied) agree bit-for-bit with the scalar functions. Non-trivial: k >= 3 and the point is an interior knot or the right end point.".into()
+        "random (order k in 1..6, knot sequence with k-fold end knots and 0-8 interior knots on a quarter grid with multiplicity <= max(1, k-1) and spans 0.25..4, 2.5% of the sequences are long (58-90 interior knots, 64-190 knots in all); the whole sequence scaled by 2^-70..-30 or 2^20..40 in 40% of draws (domains of 1e-18 and of 1e9 such as POSIX timestamps), 1-5 evaluation points drawn exactly on knots, at both end points, at span midpoints, at the doubles adjacent to knots, and uniformly; in half of the cases a point that is zero is passed as -0.0); for every point ALL basis indices i and ALL derivative orders m = 0..k+1 are evaluated. Oracle: Cox-de Boor carried out on polynomial coefficient vectors per knot span (right limit; left limit at the right end point): equality within 1e-10 x the polynomial's size on the span, non-negativity, exact zero outside [t_i, t_(i+k)], sum_i B_i = 1, sum_i B_i^(m) = 0, exact zero for m >= k; the vectorised entry points PPSpline::bspldnev and ::bsplmatrix (all i, m; end-row orders varied) agree bit-for-bit with the scalar functions. Non-trivial: k >= 3 and the point is an interior knot or the right end point.".into()
     }
 
     fn floors(&self, tier: Tier) -> Vec<Floor> {
@@ -290,6 +297,8 @@ impl Property for C14 {
             Floor { label: "domain:tiny", min: n / 10 },
             Floor { label: "domain:huge", min: n / 10 },
             Floor { label: "knots:>=64", min: n / 100 },
+            Floor { label: "x:zero-of-the-other-sign", min: n / 200 },
+            Floor { label: "x:zero-of-the-other-sign:right-end", min: n / 5000 },
         ]
     }
 }
